@@ -54,6 +54,14 @@ class GaussianMeasure(factor.ConjugateFactor):
         self.Sigma = self.Sigma
         self.ln_det_Lambda = self.ln_det_Lambda
         self.ln_det_Sigma = self.ln_det_Sigma
+        if self.Sigma is not None:
+            # A covariance given without (one of) its log-determinants: complete them, every later step relies on both.
+            if self.ln_det_Sigma is None and self.ln_det_Lambda is None:
+                self.ln_det_Sigma = jnp.linalg.slogdet(self.Sigma)[1]
+            if self.ln_det_Sigma is None:
+                self.ln_det_Sigma = -self.ln_det_Lambda
+            if self.ln_det_Lambda is None:
+                self.ln_det_Lambda = -self.ln_det_Sigma
         self.lnZ = None
         self.mu = None
 
